@@ -1,0 +1,45 @@
+//go:build verif
+
+package transform
+
+// Re-exports of unexported helpers for the verification harness. Forwarding only.
+
+func VerifConvertHorizontalIDToQuadkey(horizontalID string) int64 {
+	return convertHorizontalIDToQuadkey(horizontalID)
+}
+
+func VerifConvertQuadkeyToHorizontalID(quadkey int64, zoom int64) (int64, int64) {
+	return convertQuadkeyToHorizontalID(quadkey, zoom)
+}
+
+func VerifCalcBitIndex(altitude float64, outputZoom int64, maxHeight float64, minHeight float64) int64 {
+	return calcBitIndex(altitude, outputZoom, maxHeight, minHeight)
+}
+
+func VerifConvertVerticallIDToBit(vZoom int64, vIndex int64, outputZoom int64, maxHeight float64, minHeight float64) []int64 {
+	return convertVerticallIDToBit(vZoom, vIndex, outputZoom, maxHeight, minHeight)
+}
+
+func VerifConvertBitToVerticalID(vZoom int64, vIndex int64, outputZoom int64, maxHeight float64, minHeight float64) []string {
+	return convertBitToVerticalID(vZoom, vIndex, outputZoom, maxHeight, minHeight)
+}
+
+func VerifConvertZToMinAltitudekey(inputIndex int64, inputZoom int64, outputZoom int64, zBaseExponent int64, zBaseOffset int64) (int64, error) {
+	return convertZToMinAltitudekey(inputIndex, inputZoom, outputZoom, zBaseExponent, zBaseOffset)
+}
+
+func VerifValidateIndexExists(inputIndex int64, inputZoom int64, minValueIsNegative bool) (error, bool) {
+	return validateIndexExists(inputIndex, inputZoom, minValueIsNegative)
+}
+
+func VerifDeleteDuplicationList(duplicationList []string) []string {
+	return deleteDuplicationList(duplicationList)
+}
+
+func VerifQuadkeyCheckZoom(hZoom int64, vZoom int64) bool {
+	return quadkeyCheckZoom(hZoom, vZoom)
+}
+
+func VerifExtendedSpatialIDCheckZoom(hZoom int64, vZoom int64) bool {
+	return extendedSpatialIDCheckZoom(hZoom, vZoom)
+}
